@@ -17,7 +17,7 @@ ACTIONS = ["View", "Split", "Shuffle", "BootS", "BootF", "Boot", "WithLabels", "
            "MapT", "ToOwned", "Single"]
 TRACE_CONST = dict(MaxN=0, MaxF=0, MaxDepth=0)
 ALL_OPS = ["view", "split", "shuffle", "boot", "boots", "bootf", "wl", "ova", "chunk", "siter", "titer", "fiter", "map",
-           "toowned", "single"]
+           "toowned", "single", "iterp"]
 
 
 def S(xs):
@@ -38,6 +38,7 @@ GEN = {
         (1, "full", [1, 2, 3], [1, 2], [0, 1, 2], ["all", "none"], ["owned", "view"], ["mod3"], None),
         (1, "full", [3], [2], [0, 2], ["all"], ["ownedoff", "woff", "ownedf", "views2"], ["mod2"], None),
         (1, "full", [3], [2], [0, 2], ["all"], ["owned", "view"], ["desc", "mod2"], None),
+        (1, "proto", [3], [3], [2], ["all"], ["owned", "view"], ["mod2"], None),      # iterator protocols, all four iterators
         (2, "mid", [3], [2], [0, 2], ["all"], ["owned", "view"], ["mod2"], None),
         (3, "min", [3], [2], [0], ["all"], ["owned"], ["mod2"], 1200),
         (3, "min", [3], [2], [2], ["all"], ["view"], ["mod2"], 1200),
@@ -46,6 +47,7 @@ GEN = {
         (1, "full", [1, 2, 3, 4], [1, 2, 3], [0, 1, 2], ["all", "none", "w", "names"], ["owned", "view"], ["mod3", "desc"], None),
         (1, "full", [3, 4], [2], [0, 2], ["all"], ["owned", "view"], ["mod2"], None),
         (1, "full", [2, 3, 4], [2], [0, 2], ["all"], ["ownedoff", "woff", "ownedf", "views2"], ["mod2", "const"], None),
+        (1, "proto", [2, 4], [3], [0, 2], ["all"], ["owned", "view"], ["desc"], None),
         (2, "full", [3], [2], [0, 2], ["all"], ["owned", "view"], ["mod2"], None),
         (2, "mid", [4], [2], [0, 1, 2], ["all"], ["owned", "view", "woff", "ownedf", "views2"], ["desc"], None),
         (3, "mid", [3], [2], [0, 2], ["all"], ["owned", "view"], ["mod2"], 12000),
@@ -145,6 +147,10 @@ def random_cases(ctx, count, maxn, maxdepth):
                 o["ls"] = [r.choice([0, 1, 2, 3, 4, 5, 9]) for _ in range(r.randint(0, 4))]   # any order, repeats, absent labels
             elif op == "chunk":
                 o["a"] = r.randint(0, 5) if r.random() < 0.2 else r.randint(1, 5)
+            elif op == "iterp":
+                o["a"], o["b"] = r.randrange(4), r.randint(1, 4)
+                pre = [r.choice([100, 400, 200 + r.randrange(4), 300 + r.randrange(4)]) for _ in range(r.randint(0, 4))]
+                o["ls"] = pre + [r.choice([500, 800, 900, 600 + r.randrange(5), 701 + r.randrange(4)])]
             elif op == "map":
                 o["a"] = r.randrange(3)
             prog.append(o)
